@@ -2,7 +2,7 @@
 //! variant, EDNS, TSIG and compressed names; plus record- and RDATA-level seeds.
 
 use hickory_proto::op::{Message, MessageType, OpCode, Query};
-use hickory_proto::rr::{RecordType};
+use hickory_proto::rr::RecordType;
 
 use crate::alphabet::{hn, wn, Entry, Rec};
 use crate::msgs::{assemble, edns_variants, raw_rr, tsig_variants, RawRr};
@@ -28,7 +28,8 @@ pub fn message_seeds(entries: &[Entry], recs: &[Rec], thorough: bool) -> Vec<See
     // (1) one record per message, encoded by hickory (compression on)
     for (i, r) in recs.iter().enumerate() {
         let mut m = base(0x1000 + i as u16);
-        match i % 3 {
+        // SIG (like OPT and TSIG) is only admitted in the additional section
+        match if r.record.record_type() == RecordType::SIG { 2 } else { i % 3 } {
             0 => m.add_answer(r.record.clone()),
             1 => m.add_authority(r.record.clone()),
             _ => m.add_additional(r.record.clone()),
@@ -47,7 +48,11 @@ pub fn message_seeds(entries: &[Entry], recs: &[Rec], thorough: bool) -> Vec<See
         if thorough || has_name {
             let rr = raw_rr(["a.z.", "A.z.", "."][i % 3], e.rtype, 1, 300, &e.wire);
             let q = [(wn("a.z."), 255u16, 1u16)];
-            let b = assemble(0x2000 + i as u16, 0x8180, &q, [&[rr], &[], &[]]);
+            let b = if e.rtype == 24 {
+                assemble(0x2000 + i as u16, 0x8180, &q, [&[], &[], &[rr]])
+            } else {
+                assemble(0x2000 + i as u16, 0x8180, &q, [&[rr], &[], &[]])
+            };
             out.push(Seed { tag: format!("raw:{}", e.tag), bytes: b });
         }
     }
@@ -90,9 +95,14 @@ pub fn message_seeds(entries: &[Entry], recs: &[Rec], thorough: bool) -> Vec<See
     let mut i = 0;
     while i < recs.len() {
         let mut m = base(0x6000 + i as u16);
-        m.add_answer(recs[i].record.clone());
-        m.add_authority(recs[(i + 11) % recs.len()].record.clone());
-        m.add_additional(recs[(i + 23) % recs.len()].record.clone());
+        let (a, b, c) = (&recs[i].record, &recs[(i + 11) % recs.len()].record, &recs[(i + 23) % recs.len()].record);
+        if a.record_type() == RecordType::SIG || b.record_type() == RecordType::SIG {
+            i += step;
+            continue;
+        }
+        m.add_answer(a.clone());
+        m.add_authority(b.clone());
+        m.add_additional(c.clone());
         if let Ok(b) = m.to_vec() {
             out.push(Seed { tag: format!("three:{}", i), bytes: b });
         }
